@@ -33,6 +33,8 @@ Theorems in this file (all for every input and every fuel):
 * `lifecycle_wf_partial`      — strict automaton, guard: no step issues `extend`, no step of an entered doer raises
                                 KeyboardInterrupt; only the ids entered by `specs` need be distinct (pools are dead).
 * `lifecycle_wf_weak_partial` — weak automaton, guard: no step issues `extend`; entered ids distinct.
+* `lifecycle_fails_when_pool_doer_removes_itself` — witness for known finding C01-K2: without `noPoolSelfRemove`
+                                even the weak property fails (the real code behaves the same; corpus case).
 * `lifecycle_kbint_skips_abort` — witness for F01: the strict property fails on a one-doer program whose
                                 second recur raises KeyboardInterrupt (exit without abort).
 
@@ -139,14 +141,20 @@ example : let evs := (doistDo c01Pool 1 0 none 10 c01Ext).evs
 example : noPoolSelfRemove ([] : List (Spec Nat)) [.leaf 10 .ok [⟨[.remove [10]], .yieldT none⟩]] = false := by
   decide
 
-/-- and the hypothesis is needed (test on the model): pool doer 10 removes itself while running, so it leaves
-`.doers` but stays scheduled; its next `extend [0]` enters it again while live — even the weak automaton rejects -/
-example : ¬ LifecycleWF true
-    (doistDo [.leaf 10 .ok [⟨[.remove [10]], .yieldT none⟩, ⟨[.extend [0]], .yieldT none⟩, ⟨[], .yieldT none⟩]]
-      1 0 none 10
-      [.leaf 1 .ok [⟨[.extend [0]], .yieldT none⟩, ⟨[], .yieldT none⟩, ⟨[], .yieldT none⟩]] : Final Nat).evs := by
+/-- Known finding C01-K2 (witness, replayed on the real code by the corpus of harness/areas/sched.py):
+the hypothesis `noPoolSelfRemove` of `lifecycle_wf` is needed.  Pool doer 5 removes itself while running, so it
+leaves `.doers` but stays scheduled; doer 1's second `extend [0]` enters it again while its first generator is
+still live — two generators of one doer run at once, which even the weak automaton rejects. -/
+theorem lifecycle_fails_when_pool_doer_removes_itself :
+    ¬ LifecycleWF true
+      (doistDo
+        [.leaf 5 .ok [⟨[.remove [5]], .yieldT (some 0)⟩, ⟨[], .yieldT (some 0)⟩, ⟨[], .yieldT (some 0)⟩,
+                      ⟨[], .yieldT (some 0)⟩, ⟨[], .yieldT (some 0)⟩]]
+        1 0 (some 6) 20
+        [.leaf 1 .ok [⟨[.extend [0]], .yieldT (some 0)⟩, ⟨[], .yieldT (some 0)⟩, ⟨[.extend [0]], .yieldT (some 0)⟩,
+                      ⟨[], .yieldT (some 0)⟩, ⟨[], .yieldT (some 0)⟩, ⟨[], .yieldT (some 0)⟩]] : Final Nat).evs := by
   intro h
-  have h1 := h 10
+  have h1 := h 5
   revert h1
   decide
 
